@@ -74,6 +74,9 @@ type Result struct {
 	// RetEdges: for a reached Return whose first result (through a defer spill) is a phi of its own block, the phi
 	// operand for each way the block was entered (nil: entry edge unknown).
 	RetEdges map[*ssa.Return][]ssa.Value
+	// RetTuples: for every way a Return was reached, its results with phis of the Return's own block resolved to
+	// the operand of the edge the block was entered through (unresolved phis stay as they are).
+	RetTuples map[*ssa.Return][][]ssa.Value
 }
 
 // PhiResult returns the phi a Return's first result is, when the phi lives in the Return's block.
@@ -542,7 +545,7 @@ func (e phiEnv) evalCond(cond ssa.Value) (bool, bool) {
 
 // Reach computes the instructions reachable from the start points.
 func Reach(starts []Pt, o Opts) Result {
-	res := Result{Reached: map[ssa.Instruction]bool{}, Stopped: map[ssa.Instruction]bool{}, RetVals: map[*ssa.Return][]constant.Value{}, RetEdges: map[*ssa.Return][]ssa.Value{}}
+	res := Result{Reached: map[ssa.Instruction]bool{}, Stopped: map[ssa.Instruction]bool{}, RetVals: map[*ssa.Return][]constant.Value{}, RetEdges: map[*ssa.Return][]ssa.Value{}, RetTuples: map[*ssa.Return][][]ssa.Value{}}
 	type key struct {
 		b   *ssa.BasicBlock
 		i   int
@@ -561,6 +564,14 @@ func Reach(starts []Pt, o Opts) Result {
 			return
 		}
 		k := key{p.B, p.I, env.sig}
+		if p.I == 0 && from != nil && returnsPhi(p.B) {
+			// the results depend on the edge the block is entered through: one visit per predecessor
+			for i, pr := range p.B.Preds {
+				if pr == from {
+					k.env += uint64(i+1) * 0x9e3779b97f4a7c15
+				}
+			}
+		}
 		if !seen[k] {
 			seen[k] = true
 			work = append(work, item{p, from, env})
@@ -603,6 +614,23 @@ func Reach(starts []Pt, o Opts) Result {
 			}
 			res.Reached[in] = true
 			if ret, isRet := in.(*ssa.Return); isRet {
+				tuple := make([]ssa.Value, len(ret.Results))
+				for ri := range ret.Results {
+					v := RetVal(ret, ri)
+					tuple[ri] = v
+					if ph, isPhi := v.(*ssa.Phi); isPhi && ph.Block() == b {
+						if ev := it.env.vals[ph]; ev != nil {
+							tuple[ri] = ev
+						} else if p.I == 0 && it.from != nil {
+							for k, pr := range b.Preds {
+								if pr == it.from {
+									tuple[ri] = ph.Edges[k]
+								}
+							}
+						}
+					}
+				}
+				res.RetTuples[ret] = append(res.RetTuples[ret], tuple)
 				if ph := PhiResult(ret); ph != nil {
 					ev := it.env.vals[ph]
 					if ev == nil && p.I == 0 && it.from != nil {
@@ -892,4 +920,21 @@ func hasPhiReturn(b *ssa.BasicBlock) bool {
 	}
 	ret, ok := b.Instrs[len(b.Instrs)-1].(*ssa.Return)
 	return ok && PhiResult(ret) != nil
+}
+
+// returnsPhi: the block ends in a Return one of whose results is a phi of the block itself.
+func returnsPhi(b *ssa.BasicBlock) bool {
+	if len(b.Instrs) == 0 {
+		return false
+	}
+	ret, ok := b.Instrs[len(b.Instrs)-1].(*ssa.Return)
+	if !ok {
+		return false
+	}
+	for i := range ret.Results {
+		if ph, isPhi := RetVal(ret, i).(*ssa.Phi); isPhi && ph.Block() == b {
+			return true
+		}
+	}
+	return false
 }
